@@ -31,7 +31,7 @@ func genHistory(r *vlib.Rand) hist {
 	w := progs.NewWorld()
 	h := hist{w: w, omit: r.Chance(10)}
 	np := 1 + r.Intn(3)
-	o := progs.GenOpts{Expire: true, Hidden: true, MaxDecls: 3, Names: []string{"x", "y", "z"}}
+	o := progs.GenOpts{Expire: true, Hidden: true, Strptime: true, MaxDecls: 3, Names: []string{"x", "y", "z"}}
 	cur := make([]*progs.Prog, np)
 	for i := range cur {
 		cur[i] = progs.Gen(r, o)
@@ -70,8 +70,10 @@ type finding struct{ class, what string }
 type tally struct{ loads, errs, unloads, rterrs int64 }
 
 // raises predicts whether the program raises a runtime error on the line: the
-// only erroring construct of the grammar is `del m[k] after D` on a label tuple
-// that does not exist (ExpireDatum: "No datum for given labelvalues").
+// erroring constructs of the grammar are `del m[k] after D` on a label tuple
+// that does not exist (ExpireDatum: "No datum for given labelvalues") and
+// strptime on the captured word, which never parses (the same text recurs on
+// many lines: every occurrence is an error).
 func raises(ast *progs.Prog, hs *progs.HSnap, line string) bool {
 	present := make([]map[string]bool, len(hs.Metrics))
 	for i, m := range hs.Metrics {
@@ -83,6 +85,8 @@ func raises(ast *progs.Prog, hs *progs.HSnap, line string) bool {
 	for _, e := range ast.Effects(line) {
 		k := strings.Join(e.Ls, "\x00")
 		switch e.Op {
+		case "fail":
+			return true
 		case "inc", "set", "setf":
 			present[e.M][k] = true
 		case "del":
